@@ -27,6 +27,7 @@ EXPLANATION = (
     "(yield/await rejected); C02-R5 checks that convert_code_string returns the unparser's text "
     "with nothing but the defensive newline removal applied; with the custom unparser the "
     "syntax-critical skeleton rules of C03/C11-R6/C04-R3 are evaluated too."
+    ' C02-R3c: the For template does not store its own target through a walrus inside a comprehension element (an enclosing loop may iterate over the same name). C15-R9 (shared): node kinds that reach a host-versioned stdlib printer.'
 )
 ASSUMPTIONS = [
     "ast.unparse of the host prints a well-formed expression for a well-formed tree (stdlib, trusted)",
